@@ -867,6 +867,65 @@ def handleMarginals (c : Ctx) : List String → Option String
           showVal (Marginals.getCorr (Marginals.ratOps Marginals.sqrtFix) v d raw k a b)))
   | _ => none
 
+/-! ## `demoobj`: the mutable `Demography` object and the hand-over to `Coalescent` (PGModel/DemoObj.lean) -/
+
+/-- `<id>@<start>@<name>,<name>…` -/
+def parseDemoEv? (t : String) : Option (DemoObj.Ev String) :=
+  match t.splitOn "@" with
+  | [i, st, ns] => do
+    let i ← i.toNat?
+    let st ← parseRat? st
+    let ns ← parseList? parseCfgName? ns
+    return { id := i, start := st, names := ns }
+  | _ => none
+
+/-- `-` | `<ev>;<ev>…` -/
+def parseDemoEvs? (t : String) : Option (List (DemoObj.Ev String)) :=
+  if t == "-" || t == "" then some [] else (t.splitOn ";").mapM parseDemoEv?
+
+/-- `new:<evs>` | `new:<evs>:<ctor ev>` | `adds:<evs>` | `add:<ev>` | `touch` | `names` | `order` |
+`coal:<id of the event it may add>:<name>=<n>,…` -/
+def parseDemoOp? (t : String) : Option (DemoObj.Op String) :=
+  match t.splitOn ":" with
+  | ["new", evs] => (parseDemoEvs? evs).map fun evs => .new evs none
+  | ["new", evs, c] => do return .new (← parseDemoEvs? evs) (some (← parseDemoEv? c))
+  | ["adds", evs] => (parseDemoEvs? evs).map .addEvents
+  | ["add", e] => (parseDemoEv? e).map .addEvent
+  | ["touch"] => some .touchEpochs
+  | ["names"] => some .readPopNames
+  | ["order"] => some .readEventOrder
+  | ["coal", i, smp] => do
+    let i ← i.toNat?
+    let smp ← parseList? (fun (kv : String) => match kv.splitOn "=" with
+      | [k, c] => match parseCfgName? k, c.toNat? with
+        | some k, some c => some (k, c)
+        | _, _ => none
+      | _ => none) smp
+    return .coalescentInit smp i
+  | _ => none
+
+def showDemoObs : DemoObj.Obs String → String
+  | .none => "."
+  | .popNames ns n => s!"{showListOr id "," ns};n={n}"
+  | .order ids => showListOr toString "," ids
+  | .coal added lin =>
+    let a := match added with | none => "-" | some ns => showListOr id "," ns
+    s!"added={a};lin={showListOr (fun (p : String × Nat) => s!"{p.1}={p.2}") "," lin}"
+
+/-- `demoobj <variant current|staleadd> <op> <op> …` with `<ev>` = `<id>@<start>@<name>,<name>…` and the ops of
+`parseDemoOp?`: the history is replayed by `DemoObj.run` from the empty object.  Answer: one field per op joined by
+` | `: `.` for an op without observation; `names` → `<pop_names, comma separated|->;n=<n_pops>`; `order` → the ids of
+`self.events` in order (`-` if none); `coal` → `added=<pop_names of the event Coalescent.__init__ appended|->;lin=<name>=<n>,…`
+(the completed lineage dict sorted by name). -/
+def handleDemoObj : List String → Option String
+  | v :: toks => do
+    let v ← if v == "current" then some DemoObj.Variant.current
+      else if v == "staleadd" then some DemoObj.Variant.staleadd else none
+    let ops ← toks.mapM parseDemoOp?
+    let (_, obs) := DemoObj.run v ({} : DemoObj.State String) ops
+    return showListOr showDemoObs " | " obs
+  | [] => none
+
 def handle (c : Ctx) (line : String) : Ctx × String :=
   let toks := (line.trimAscii.toString.splitOn " ").filter (· != "")
   let bad := (c, "bad-request")
@@ -1081,6 +1140,7 @@ def handle (c : Ctx) (line : String) : Ctx × String :=
   | "share" :: toks => (c, (handleShare toks).getD "bad-request")
   | "serial" :: toks => (c, (handleSerial toks).getD "bad-request")
   | "marginals" :: toks => (c, (handleMarginals c toks).getD "bad-request")
+  | "demoobj" :: toks => (c, (handleDemoObj toks).getD "bad-request")
   | ["selftest"] =>
     -- exp of a nilpotent matrix is exact; exp(A)·exp(A) = exp(2A); rows of exp(Q) sum to one
     let nil := FMat.ofFn 3 fun i j => if j = i + 1 then 1 else 0
